@@ -10,6 +10,7 @@ import (
 	"path/filepath"
 	"runtime"
 	"strings"
+	"sync/atomic"
 	"testing"
 	"time"
 
@@ -49,7 +50,23 @@ func drawName(rt *rapid.T, liveId uint16) (name string, class string) {
 	if dom != "" {
 		suffix = "." + dom + "."
 	}
-	switch rapid.IntRange(0, 7).Draw(rt, "nameKind") {
+	switch rapid.IntRange(0, 8).Draw(rt, "nameKind") {
+	case 8:
+		// the domain's own text, wholly or partly INSIDE a label (a dot or backslash that is label content, written
+		// \. and \\ in presentation format), so that the name looks like a tunnel name to a textual suffix test
+		head := []string{"v", "c", "cabc00", "z", "yabc", "mail", ""}[rapid.IntRange(0, 6).Draw(rt, "head")]
+		tail := []string{
+			`\.` + domain + ".",
+			`\\.` + domain + ".",
+			`\\\.` + domain + ".",
+			"." + strings.Replace(domain, ".", `\.`, 1) + ".",
+			`\.` + strings.Replace(domain, ".", `\.`, 1) + ".",
+			`\.` + strings.ToUpper(domain) + ".",
+			`x\.` + domain + "." + domain + ".",
+			`\046` + domain + ".",
+			`\092.` + domain + ".",
+		}[rapid.IntRange(0, 8).Draw(rt, "tail")]
+		return head + tail, "domain-text-inside-label"
 	case 0:
 		// ordinary look-ups
 		host := []string{"mail", "www", "ldap", "_dmarc", "ns1", "e", "v", "c", "y", "yabc", "z", "zabc12", "o", "r", "l", "m", "localhost", "*"}[rapid.IntRange(0, 17).Draw(rt, "host")]
@@ -500,6 +517,130 @@ func TestClientWithstandsArbitraryAnswers(t *testing.T) {
 				return
 			}
 			vlib.Rec.Violation(map[string]interface{}{"property": "C12", "signature": sig, "answer": d, "problem": msg})
+			rt.Fatalf("C12 [%s] %v: %s", sig, d, msg)
+		}
+	})
+}
+
+// ---- client operations against a server that answers in the tunnel's own format, but hostile -------------------------
+
+// hostileResponse is a tunnel answer with an arbitrary command letter and body (what a broken or malicious server,
+// or a resolver that rewrites answers, can send in the right envelope).
+type hostileResponse struct {
+	letter byte
+	body   []byte
+}
+
+func (h *hostileResponse) Command() commands.Command                { return commands.Command{Code: h.letter} }
+func (h *hostileResponse) Encode(e enc.Encoder) ([]byte, error)     { return append([]byte{h.letter}, h.body...), nil }
+func (h *hostileResponse) Decode(e enc.Encoder, resp []byte) error { return nil }
+
+func drawHostileResponse(rt *rapid.T, label string) (*hostileResponse, string) {
+	letter := "evlorzymcEVxc0"[rapid.IntRange(0, 13).Draw(rt, label+"Letter")]
+	h := &hostileResponse{letter: letter}
+	kind := rapid.IntRange(0, 4).Draw(rt, label+"Body")
+	switch kind {
+	case 0:
+		// nothing after the letter
+	case 1:
+		// an error text as the server sends it: Base32 of a string - known names, empty, with NUL bytes
+		txt := []string{"", "BADIP", "BADCONN", "BADLEN", "BADUSER", "BADCOMMAND", "x\x00y", "\x00", "BADIP\x00", "some longer text that is no known error"}[rapid.IntRange(0, 9).Draw(rt, label+"Text")]
+		h.body = enc.Base32Encoding.Encode([]byte(txt))
+	case 2:
+		// Base32 of arbitrary bytes (what most answer bodies are made of)
+		h.body = enc.Base32Encoding.Encode(binaryPayload(rt, label+"Bin"))
+	case 3:
+		// raw bytes
+		h.body = binaryPayload(rt, label+"Raw")
+	default:
+		h.body = []byte(rapid.StringMatching(`[a-z0-9]{1,12}`).Draw(rt, label+"Soup"))
+	}
+	return h, fmt.Sprintf("%c+%s", letter, vlib.Hex(h.body))
+}
+
+// TestClientOperationsAgainstHostileServer: every operation of the client's handshake and data path is run against a
+// server whose answers (a drawn cycle of 1-3 of them) arrive in the tunnel's own envelope but carry arbitrary command
+// letters and bodies. Each operation must return (result or error) within the bound and must not panic.
+func TestClientOperationsAgainstHostileServer(t *testing.T) {
+	budget := int32(vlib.Pick(300, 4000))
+	var ran int32
+	ops := []struct {
+		name string
+		run  func(c *ClientDnsConnection)
+	}{
+		{"VersionHandshake", func(c *ClientDnsConnection) { _ = c.VersionHandshake() }},
+		{"AutoDetectQueryType", func(c *ClientDnsConnection) { _ = c.AutoDetectQueryType() }},
+		{"AutodetectEdns0Extension", func(c *ClientDnsConnection) { c.AutodetectEdns0Extension() }},
+		{"AutodetectEncodingUpstream", func(c *ClientDnsConnection) { c.AutodetectEncodingUpstream() }},
+		{"SetEncodingUpstream", func(c *ClientDnsConnection) { _ = c.SetEncodingUpstream() }},
+		{"AutodetectEncodingDowntream", func(c *ClientDnsConnection) { c.AutodetectEncodingDowntream() }},
+		{"SetEncodingDownstream", func(c *ClientDnsConnection) { _ = c.SetEncodingDownstream() }},
+		{"AutodetectFragmentSize", func(c *ClientDnsConnection) { _, _ = c.AutodetectFragmentSize() }},
+		{"SwitchFragmentSize", func(c *ClientDnsConnection) { _ = c.SwitchFragmentSize(600) }},
+		{"AutodetectLazyMode", func(c *ClientDnsConnection) { c.AutodetectLazyMode() }},
+		{"SendAndReceive", func(c *ClientDnsConnection) { _ = c.SendAndReceive(nil) }},
+		{"Handshake", func(c *ClientDnsConnection) { _ = c.Handshake() }},
+	}
+	rapid.Check(t, func(rt *rapid.T) {
+		if atomic.AddInt32(&ran, 1) > budget {
+			return
+		}
+		op := ops[rapid.IntRange(0, len(ops)-1).Draw(rt, "operation")]
+		n := rapid.IntRange(1, 3).Draw(rt, "answers")
+		var cycle []*hostileResponse
+		var names []string
+		for i := 0; i < n; i++ {
+			h, nm := drawHostileResponse(rt, fmt.Sprintf("a%d", i))
+			cycle = append(cycle, h)
+			names = append(names, nm)
+		}
+		e := downCodecsC12[rapid.IntRange(0, len(downCodecsC12)-1).Draw(rt, "codec")]
+		d := map[string]interface{}{"operation": op.name, "answers": names, "codec": e.Name()}
+		journal(d)
+		vlib.Rec.Case(fmt.Sprintf("hostile|%v", d), true, []string{"client-operation", "op:" + op.name}, func() interface{} { return d })
+		ss := &simServer{}
+		var k int32
+		ser := commands.Serializer{Domain: domain}
+		ss.RegisterAccept(func(m *mdns.Msg, a net.Addr) (*mdns.Msg, error) {
+			h := cycle[int(atomic.AddInt32(&k, 1)-1)%len(cycle)]
+			return ser.EncodeDnsResponseWithParams(h, m, dnsmessage.Type(m.Question[0].Qtype), e)
+		})
+		comm := newSimClient(ss, addrOwner)
+		client, _ := NewClientDnsConnection(domain, comm)
+		qt := util.QueryTypeNull
+		client.Serializer.Upstream.QueryType = &qt
+		client.Serializer.Upstream.Encoder = enc.Base32Encoding
+		client.Serializer.Downstream.Encoder = e
+		client.Serializer.Upstream.FragmentSize = 100
+		client.Serializer.Downstream.FragmentSize = 200
+		done := make(chan string, 1)
+		go func() {
+			defer func() {
+				if r := recover(); r != nil {
+					done <- fmt.Sprint(r)
+					return
+				}
+				done <- ""
+			}()
+			op.run(client)
+		}()
+		sig, msg := "", ""
+		select {
+		case pmsg := <-done:
+			if pmsg != "" {
+				sig, msg = "client-panic", fmt.Sprintf("%s panicked on a hostile answer: %s", op.name, pmsg)
+			}
+		case <-time.After(90 * time.Second):
+			sig, msg = "client-does-not-terminate", fmt.Sprintf("%s did not return within 90s although every query was answered at once (%d exchanges so far)", op.name, comm.Exchanges)
+		}
+		comm.closed = true
+		go func() { defer func() { recover() }(); client.Close() }()
+		if sig != "" {
+			if vlib.IsKnown("C12", sig) {
+				vlib.Rec.Known(sig, map[string]interface{}{"case": d, "problem": msg})
+				return
+			}
+			vlib.Rec.Violation(map[string]interface{}{"property": "C12", "signature": sig, "case": d, "problem": msg})
 			rt.Fatalf("C12 [%s] %v: %s", sig, d, msg)
 		}
 	})
